@@ -601,6 +601,7 @@ func (e *Engine) Run(t *core.Tape, cfg *core.Config, st *core.Stats) *core.Viola
 			continue
 		}
 		r := runUnder(proto, c, maxSteps)
+		st.D(model.HashTrace(r.trace, r.out.TopError))
 		st.Evals++
 		st.Steps += r.steps
 		st.Distinct(uint64(core.NewHash().Str(src).Str(c.String())))
